@@ -190,10 +190,24 @@ Proof. vm_compute. reflexivity. Qed.
 
 Example C23_full_run : exists s,
   replay (init [GetRange p0 p0; GetBlock {| pslot := 159835207; phash := hx "27807a70"%string |}]
-             [StartBatch; Block (Some bA); Block (Some bB); BatchDone; StartBatch; Block (Some bA); BatchDone])
+             [StartBatch; Block (Some bA); Block (Some bB); BatchDone; StartBatch; Block (Some bA); BatchDone]) 0
     [LCall (GetRange p0 p0); LWire (GetRange p0 p0); LCbBlock bA; LRet (GetRange p0 p0) ROk; LCbBlock bB; LCbDone;
      LCall (GetBlock {| pslot := 159835207; phash := hx "27807a70"%string |});
      LWire (GetBlock {| pslot := 159835207; phash := hx "27807a70"%string |});
      LRet (GetBlock {| pslot := 159835207; phash := hx "27807a70"%string |}) (RBlock bA)] = Some s
   /\ cblog s = [CbBlock bA; CbBlock bB; CbDone] /\ pending s = false /\ busy s = false.
 Proof. eexists. split; [vm_compute; reflexivity|]. repeat split. Qed.
+
+(* regression (thorough seed 1, case 41): after the server's surplus BatchDone the second call
+   dies right after SendMessage; the peer reads its request only after the call has returned
+   and the third call has started.  The late "wire" observation is matched against the FIFO
+   log of sent requests (happens-before, not log order). *)
+Example C23_late_wire_observation :
+  let p1 : point := {| pslot := 7; phash := hx "01"%string |} in
+  check_case {| c_prog := [GetRange p0 p0; GetRange p1 p1; GetBlock p0];
+                c_script := [StartBatch; BatchDone; BatchDone; StartBatch];
+                c_obs := [LCall (GetRange p0 p0); LWire (GetRange p0 p0); LRet (GetRange p0 p0) ROk;
+                          LCall (GetRange p1 p1); LCbDone; LRet (GetRange p1 p1) (RErr EShutdown);
+                          LCall (GetBlock p0); LWire (GetRange p1 p1); LRet (GetBlock p0) (RErr EShutdown)];
+                c_hung := false |} = true.
+Proof. vm_compute. reflexivity. Qed.
